@@ -7,11 +7,13 @@ package bttest
 // sockets, to its background GC loop, and to a raw dump of what is stored.
 
 import (
+	"net"
 	"sort"
 
 	"cloud.google.com/go/bigtable"
 	btapb "cloud.google.com/go/bigtable/admin/apiv2/adminpb"
 	btpb "cloud.google.com/go/bigtable/apiv2/bigtablepb"
+	"google.golang.org/grpc"
 )
 
 // VerifServer is the service implementation behind Server.
@@ -50,6 +52,19 @@ func (s *Server) VerifInner() *VerifServer { return s.s }
 // VerifGCLoop runs the background GC loop in the calling goroutine (it returns when the
 // server is closed).
 func (s *server) VerifGCLoop() { s.gcloop() }
+
+// VerifCloseAsServer shuts the service down through the public Server.Close itself (on a Server value with a
+// listener that does nothing and a gRPC server that was never started), so that the checker exercises the real
+// shutdown path and not a copy of it.
+func (s *server) VerifCloseAsServer() {
+	(&Server{l: verifNopListener{}, srv: grpc.NewServer(), s: s}).Close()
+}
+
+type verifNopListener struct{}
+
+func (verifNopListener) Accept() (net.Conn, error) { return nil, net.ErrClosed }
+func (verifNopListener) Close() error              { return nil }
+func (verifNopListener) Addr() net.Addr            { return &net.TCPAddr{} }
 
 // VerifClose releases the storage of every table (what Server.Close does after stopping gRPC).
 func (s *server) VerifClose() {
